@@ -564,6 +564,7 @@ fn sound_under_concurrency(v: &Viol) -> bool {
         (v.prop, v.sub),
         ("C02", _)
             | ("C05", "closed-before-issue")
+            | ("C05", "closed-before-handback")
             | ("C06", _)
             | ("C15", _)
             | ("C04", "duplicate-h2-dial")
@@ -825,6 +826,33 @@ fn explore_state(cfg: &SimConfig, hist: &[Ev], seq_fps: &HashSet<Fp>, props: &[&
                                         if age + step > Duration::from_millis(t * sim.cfg.t_ms) {
                                             viols.push(Viol { prop: "C05", sub: "expired", msg: format!("the clock moved by {step:?} before the check-out took the pool lock, yet it was given c{c}, idle for {:?} by then (idle timeout {:?})", age + step, Duration::from_millis(t * sim.cfg.t_ms)) });
                                         }
+                                    }
+                                }
+                            }
+                        }
+                    }
+                }
+                // operation || peer close: when the close lands right after the operation's first segment, which
+                // ended in front of the pool lock, every hand-back the operation makes (into the idle list or to a
+                // waiter) comes after the close. The sequential oracle orders close and hand-back by step number;
+                // inside one concurrent step that order is given by the interleaving, so it is recorded here.
+                if let (2, Ev::ConnClose(c) | Ev::Upgrade(c)) = (group.len(), b) {
+                    let c = c as usize;
+                    let op_steps: Vec<usize> = trace.steps.iter().enumerate().filter(|(_, (w, _))| *w == 0).map(|(i, _)| i).collect();
+                    let env_pos = trace.steps.iter().position(|(w, _)| *w == 1);
+                    let first_park = op_steps.first().map(|&i| trace.steps[i].1);
+                    if let (Some(ep), true, Some("pool mutex")) = (env_pos, op_steps.len() >= 2, first_park) {
+                        if ep == op_steps[0] + 1 {
+                            let handed_back = rep.new_idle.contains(&c) || sim.reqs.iter().any(|r| r.fut.is_some() && r.inbox == Some(c));
+                            if handed_back {
+                                let step = world::with(|w| {
+                                    w.step += 1;
+                                    w.conns[c].last_handback_step = Some(w.step);
+                                    w.step
+                                });
+                                for r in sim.reqs.iter_mut() {
+                                    if r.inbox == Some(c) {
+                                        r.recv_handback_step = Some(step);
                                     }
                                 }
                             }
